@@ -463,3 +463,10 @@ Definition wf_exact (L : rlayout) : bool :=
 (* layouts translated but excluded from the theorem, by name (each one is a finding, see notes/C01L.md) *)
 Definition layouts_except (names : list string) (Ls : list rlayout) : list rlayout :=
   filter (fun L => negb (mem (r_name L) names)) Ls.
+
+(* meaning of a gate test; used only by the validation environment of LayoutCheck.v *)
+Inductive condsem :=
+  | CGe (n : Z)              (* u16: v >= n *)
+  | CMajMin (a b : Z)        (* MajorMinor / Version16Dot16: major = a and minor >= b *)
+  | CMaskAll (m : Z)         (* flags.contains(m) *)
+  | CMaskAny (m : Z).        (* flags.intersects(m) *)
